@@ -9,12 +9,18 @@ Import ListNotations.
 Open Scope Z_scope.
 
 (* position-coded stream: byte i = (i + (i/251)*7 + seed) mod 256, as vC01Stream in the engine *)
-Fixpoint gen_from (seed : N) (i : N) (n : nat) : list byte :=
+(* [x] = value of the current byte, [col] = bytes left before the next multiple of 251 *)
+Fixpoint gen_from (x : N) (col : nat) (n : nat) : list byte :=
   match n with
   | O => []
-  | S n' => byte_of_N ((i + (i / 251) * 7 + seed) mod 256)%N :: gen_from seed (i + 1)%N n'
+  | S n' =>
+      byte_of_N x ::
+      match col with
+      | O => gen_from ((x + 8) mod 256)%N 250 n'
+      | S col' => gen_from ((x + 1) mod 256)%N col' n'
+      end
   end.
-Definition gen_stream (seed len : Z) : list byte := gen_from (Z.to_N seed) 0%N (Z.to_nat len).
+Definition gen_stream (seed len : Z) : list byte := gen_from (Z.to_N seed mod 256)%N 250 (Z.to_nat len).
 
 (* a byte string returned by the implementation: a concatenation of slices of the stream, or raw bytes *)
 Inductive data := DS (parts : list (Z * Z)) | DH (hex : string).
@@ -99,6 +105,8 @@ Fixpoint all2 {A B} (f : A -> B -> bool) (a : list A) (b : list B) : bool :=
   | _, _ => false
   end.
 
+Definition wrap_impl := wrap_old.
+
 (* one step: returns None on disagreement *)
 Definition step (stream : list byte) (r : rd) (orc : oracle) (op : cop) : option (rd * oracle) :=
   match op with
@@ -115,20 +123,20 @@ Definition step (stream : list byte) (r : rd) (orc : oracle) (op : cop) : option
       | None => if p then Some (r, orc) else None
       | Some b => if negb p && bytes_eqb b (data_bytes stream d) then Some (r, orc) else None
       end
-  | KWrapId => match r with L4 c _ => Some (wrap c r, orc) | _ => None end
+  | KWrapId => match r with L4 c _ => Some (wrap_impl c r, orc) | _ => None end
   | KWrapBufio sz n1 d e =>
       match r with
       | L4 _ _ =>
           let '((d', e'), b', o') := read (Bufio [] (Z.to_nat sz) r) (Z.to_nat n1) orc in
           match b' with
           | Bufio _ _ (L4 c1 _) =>
-              if bytes_eqb d' (data_bytes stream d) && err_is e' e then Some (wrap c1 b', o') else None
+              if bytes_eqb d' (data_bytes stream d) && err_is e' e then Some (wrap_impl c1 b', o') else None
           | _ => None
           end
       | _ => None
       end
   | KThrottle burst => match r with L4 c i => Some (L4 c (Thr (Z.to_nat burst) i), orc) | _ => None end
-  | KTee => match r with L4 c _ => Some (wrap c (TeeW r []), orc) | _ => None end
+  | KTee => match r with L4 c _ => Some (wrap_impl c (TeeW r []), orc) | _ => None end
   | KDrain bsz d =>
       let '(ds, r', o') := drain (List.length (stream_of r) + List.length orc + 1002) r (Z.to_nat bsz) orc 1000 in
       if bytes_eqb ds (data_bytes stream d) then Some (r', o') else None
